@@ -72,6 +72,9 @@ func (x *Exec) evalRealCall(n *ast.CallExpr, st *State, env *Env) Val {
 	// functions of the repository with a contract
 	if fi := x.g.funcByObj[fn.Origin()]; fi != nil {
 		if con := x.g.cs.Funcs[fi.Key]; con != nil {
+			if con.Inline && fi.Sig.Params().Len() == 0 {
+				return x.inlineCall(fi, st)
+			}
 			var args []Val
 			for i, a := range n.Args {
 				v := x.eval(a, st, env)
@@ -169,7 +172,7 @@ func (x *Exec) callContract(fi *FuncInfo, con *Contract, recv *Val, args []Val, 
 	ordinal := x.ord[node]
 	short := fi.Key[strings.Index(fi.Key, ".")+1:]
 	// preconditions
-	x.inContract++
+	x.c.inContract++
 	for i, r := range con.Requires {
 		t := x.defaultType(x.eval(r.Expr, st, cenv)).T
 		label := r.Label
@@ -179,7 +182,7 @@ func (x *Exec) callContract(fi *FuncInfo, con *Contract, recv *Val, args []Val, 
 		x.obligeRaw(fmt.Sprintf("pre@%s.%s", short, label), ordinal, node.Pos(), st, t, "precondition of "+fi.Key+": "+r.Text)
 		c.assume(st.pc, t)
 	}
-	x.inContract--
+	x.c.inContract--
 	pre := st.clone()
 	// modifies: havoc the listed arrays, writers and channels
 	type seqSave struct {
@@ -190,7 +193,7 @@ func (x *Exec) callContract(fi *FuncInfo, con *Contract, recv *Val, args []Val, 
 	var seqs []seqSave
 	var failedKeys []string
 	failedOld := map[string]string{}
-	x.inContract++
+	x.c.inContract++
 	for _, m := range con.Modifies {
 		// writer / channel handles
 		if id, ok := m.Expr.(*ast.Ident); ok {
@@ -241,7 +244,7 @@ func (x *Exec) callContract(fi *FuncInfo, con *Contract, recv *Val, args []Val, 
 		na := c.freshConst("A", "(Array Int "+es+")")
 		st.heaps[es] = c.define("H", c.heapName(es), app("store", h, ref, na))
 	}
-	x.inContract--
+	x.c.inContract--
 	// results
 	var results []Val
 	resultHasSlice := false
@@ -283,12 +286,12 @@ func (x *Exec) callContract(fi *FuncInfo, con *Contract, recv *Val, args []Val, 
 	}
 	// postconditions
 	penv := &Env{contract: true, names: names, pkg: fi.Pkg.Types, old: pre}
-	x.inContract++
+	x.c.inContract++
 	for _, e := range con.Ensures {
 		t := x.defaultType(x.eval(e.Expr, st, penv)).T
 		c.assume(st.pc, t)
 	}
-	x.inContract--
+	x.c.inContract--
 	// restore caller views of ghost state
 	for _, k := range failedKeys {
 		fd := st.gh[k].T
@@ -430,7 +433,7 @@ func (x *Exec) callTable(n *ast.CallExpr, ix *ast.IndexExpr, st *State, env *Env
 				names[fi.Sig.Params().At(i).Name()] = args[i]
 			}
 			cenv := &Env{contract: true, names: names, pkg: fi.Pkg.Types}
-			x.inContract++
+			x.c.inContract++
 			for j, r := range con.Requires {
 				t := x.defaultType(x.eval(r.Expr, pre, cenv)).T
 				save := pre.pc
@@ -449,7 +452,7 @@ func (x *Exec) callTable(n *ast.CallExpr, ix *ast.IndexExpr, st *State, env *Env
 				t := x.defaultType(x.eval(e.Expr, st, penv)).T
 				c.assume(and(st.pc, sel), t)
 			}
-			x.inContract--
+			x.c.inContract--
 			x.usedContracts[fi.Key] = true
 		}
 		keyOK = append(keyOK, and(isTbl, or(keysHere...)))
